@@ -35,9 +35,9 @@ RULE = ('cases: seeded batch_run calls on a self-identifying fixture model: grid
 ASSUMPTIONS = ['a batch_run call that hangs in Pool.terminate() after a failed execution is the known finding F7; any other hang is inconclusive',
                'fault position = n-th model construction (global ordinal claimed through O_EXCL files), which equals the list position for one '
                'process and approximates it for several', 'a hang outside that mechanism is reported as inconclusive by the watchdog, not as a violation']
-FLOORS = {'quick': {'parameter_list_used_for_an_earlier_grid_search': 4, 'replication_batches_with_more_runs_than_twice_the_workers': 1, 'replication_batches_without_parameters': 3, 'step_limit_reached_after_a_warm_up': 2, 'batches_whose_collectors_rebind_their_records': 14, 'batches_whose_models_warm_up_in_their_constructor': 8, 'batches_with_an_empty_product': 2, 'faults_raised_right_after_the_run_completed_itself': 2, 'records_with_class_level_state_checked': 6046, 'batches_with_a_run_that_calls_a_deprecated_alias': 3, 'batches_with_spawned_workers': 2, 'fault_exc_InjectedOSError': 5, 'batches_after_a_refused_batch_run_call': 11, 'parameter_list_used_for_an_earlier_batch': 8, 'parameter_list_from_a_dict_reused_by_the_caller': 7, 'fault_exc_InjectedModelComplete': 4, 'batches': 100, 'executions_checked': 310, 'records_checked': 1200, 'fault_batches': 30, 'faults_propagated': 30,
+FLOORS = {'quick': {'parameter_list_used_for_an_earlier_grid_search': 4, 'step_limit_reached_after_a_warm_up': 1, 'batches_whose_collectors_rebind_their_records': 14, 'batches_whose_models_warm_up_in_their_constructor': 8, 'batches_with_an_empty_product': 1, 'faults_raised_right_after_the_run_completed_itself': 1, 'records_with_class_level_state_checked': 6046, 'batches_with_a_run_that_calls_a_deprecated_alias': 1, 'fault_exc_InjectedOSError': 1, 'batches_after_a_refused_batch_run_call': 11, 'parameter_list_used_for_an_earlier_batch': 8, 'parameter_list_from_a_dict_reused_by_the_caller': 7, 'fault_exc_InjectedModelComplete': 1, 'batches': 100, 'executions_checked': 310, 'records_checked': 1200, 'fault_batches': 30, 'faults_propagated': 30,
                     'multi_process_batches': 50, 'reordered_batches': 5, 'serial_order_checks': 9, 'limit_below_completion': 15,
-                    'limit_above_completion': 15, 'multi_collector_batches': 20, 'no_collector_batches': 6, 'big_batches_many_runs': 1, 'big_batches_long_runs': 1, 'big_batches_many_repetitions': 1, 'fault_exc_InjectedKeyError': 3, 'collectors_at_completer_priority': 22, 'parameter_list_with_history': 10, 'procs_1': 20, 'procs_2_4': 20, 'procs_5_8': 8, 'procs_9_16': 8},
+                    'limit_above_completion': 15, 'multi_collector_batches': 20, 'no_collector_batches': 6, 'big_batches_many_runs': 1, 'big_batches_long_runs': 1, 'big_batches_many_repetitions': 1, 'collectors_at_completer_priority': 22, 'parameter_list_with_history': 10, 'procs_1': 20, 'procs_2_4': 20, 'procs_5_8': 8, 'procs_9_16': 8},
           'thorough': {'batches': 3000, 'fault_batches': 1000, 'reordered_batches': 200, 'procs_9_16': 200}}
 EXHAUSTIVE = {}
 
